@@ -8,6 +8,7 @@ import (
 
 	"github.com/ipfs/go-graphsync"
 	"github.com/ipfs/go-graphsync/cidset"
+	"github.com/ipfs/go-graphsync/dedupkey"
 	"github.com/ipfs/go-graphsync/donotsendfirstblocks"
 )
 
@@ -60,6 +61,10 @@ type c24 struct {
 	c02
 	userSkip int64
 	ignore   *cid.Set
+	// the request may live in a named deduplication scope that a second, unrelated request joins while it runs
+	sib    *Req
+	sibDag *DAG
+	sibAt  int
 }
 
 func newC24() Scenario { return &c24{c02: c02{prop: "C24"}} }
@@ -106,13 +111,31 @@ func (s *c24) Build(w *World) {
 		}
 		exts = append(exts, graphsync.ExtensionData{Name: graphsync.ExtensionDoNotSendCIDs, Data: cidset.EncodeCidSet(s.ignore)})
 	}
+	if t.Chance(250) {
+		k, _ := dedupkey.EncodeDedupKey("scope")
+		kx := graphsync.ExtensionData{Name: graphsync.ExtensionDeDupByKey, Data: k}
+		exts = append(exts, kx)
+		s.sibDag = GenDAG(t, GenCfg{MaxBlocks: 1 + t.Draw(3), MaxDepth: 1, BlockPad: 19})
+		for _, c := range s.sibDag.Order {
+			s.b.Store.Put(c, s.sibDag.Blocks[c])
+		}
+		s.sib = s.a.NewReq("r2", s.b, s.sibDag.Root, AllSelector(4), kx)
+		s.sibAt = t.Draw(50)
+	}
 	s.req = s.a.NewReq("r1", s.b, s.dag.Root, s.sel, exts...)
 	w.AddProvider(func() []*Event {
 		if !s.req.Issued {
 			return []*Event{s.req.IssueEvent()}
 		}
+		if s.sib != nil && !s.sib.Issued && w.Step >= s.sibAt {
+			return []*Event{s.sib.IssueEvent()}
+		}
 		return nil
 	})
+}
+
+func (s *c24) Done(w *World) bool {
+	return s.req.Done() && (s.sib == nil || !s.sib.Issued || s.sib.Done())
 }
 
 func (s *c24) Describe(w *World) string {
@@ -147,6 +170,9 @@ func (s *c24) Final(w *World) *Violation {
 	csel, _ := CanonicalSelector(s.sel)
 	n, miss := localPrefix(s.dag, csel, s.split.Rq)
 	fromA := w.Net.WireFor("A", "B")
+	if !miss && s.sib != nil {
+		return nil // (the second request's traffic is its own)
+	}
 	if !miss {
 		if len(fromA) > 0 {
 			return &Violation{Property: "C24", Rule: "R1", Signature: "needless-traffic", Detail: fmt.Sprintf("requestor holds every block the traversal needs (%d) but sent %d message(s): %s", n, len(fromA), SummarizeMsg(w.Net, fromA[0].Msg))}
@@ -192,6 +218,9 @@ func (s *c24) Final(w *World) *Violation {
 	sent := map[cid.Cid]int{}
 	for mi, cs := range out.Blocks {
 		for _, c := range cs {
+			if _, mine := s.dag.Blocks[c]; !mine {
+				continue // a block of the second request
+			}
 			if prev, ok := sent[c]; ok && prev != mi {
 				return &Violation{Property: "C24", Rule: "R3", Signature: "block-sent-twice", Detail: fmt.Sprintf("block %s in messages %d and %d", shortCid(c), prev, mi)}
 			}
